@@ -297,6 +297,11 @@ def random_session(rng, *, rhythm_dur=Fraction(1, 8), server=False):
 class RandomSessionSuite(SystemSuite):
     name = "bot_sessions"
 
+    def oracle_C10(self, case, out):
+        if "trace" in out and out["outcome"][0] == "crashed":
+            return f"Wheatley's main loop was killed by {out['outcome'][2]} at {out['outcome'][3]}"
+        return None
+
     def scenarios(self, rng, tier):
         for _ in range(150 if tier == "quick" else 1500):
             yield random_session(rng)
@@ -652,6 +657,11 @@ class StartStopSuite(SystemSuite):
 
     def oracle_C06(self, case, out):
         return self._check(case, out)
+
+    def oracle_C10(self, case, out):
+        if "trace" in out and out["outcome"][0] == "crashed":
+            return f"Wheatley's main loop was killed by {out['outcome'][2]} at {out['outcome'][3]}"
+        return None
 
     def oracle_C07(self, case, out):
         return self._check(case, out)
